@@ -223,6 +223,15 @@ def same_line(impl, model):
 # the property's own reference (not the model): evaluated on implementation graphs
 # ---------------------------------------------------------------------------
 
+# clauses that go beyond the property's text (choices of the code): they never make a failing input on their
+# own; they are listed with a correspondence violation as a hint
+SOFT = {"empty-input", "input_length", "return-value", "interpreted_length:completion-missing",
+        "edge:empty-spelling-map", "edge:completion-not-exact", "edge:completion-type-policy",
+        "edge:trailing-delimiters-not-maximal", "edge:type", "edge:end_pos", "edge:is_correction",
+        "edge:from-unretained-vertex", "edge:into-unretained-vertex", "normal-tiling:edge-type",
+        "transpose:starts", "transpose:pointer-identity", "transpose:order"}
+
+
 def oracle(M, delims, comp, strict, s, g):
     """M: key -> [(sid, type, credbits)].  Returns (list of failed clauses, class flags)."""
     bad = []
@@ -283,8 +292,10 @@ def oracle(M, delims, comp, strict, s, g):
                 if not comp:
                     bad.append("edge:completion-while-disabled")
                 for sid, (ty, endp, cr, corr) in sm.items():
-                    if endp != e or not any(d[0] == sid and d[1] < 2 for k in begins for d in M[k]):
+                    if not any(d[0] == sid for k in begins for d in M[k]):
                         bad.append("edge:completion-unsound")
+                    elif endp != e or not any(d[0] == sid and d[1] < 2 for k in begins for d in M[k]):
+                        bad.append("edge:completion-type-policy")
                 want = {d[0] for k in begins for d in M[k] if d[1] < 2}
                 if set(sm) != want and len(M) <= 512:
                     bad.append("edge:completion-not-exact")
@@ -364,21 +375,32 @@ def oracle(M, delims, comp, strict, s, g):
                     if d[1] == 0:
                         flags.add("normal-tiling")
                         got = E.get(p, {}).get(e, {}).get(d[0])
-                        if got is None or got[0] != 0:
+                        if got is None:
                             bad.append("normal-tiling:edge-missing")
-    # --- indices is exactly the transpose of edges
+                        elif got[0] != 0:
+                            bad.append("normal-tiling:edge-type")
+    # --- indices is exactly the transpose of edges (the property speaks of the edge *set*: lists are compared as
+    #     multisets; list order, pointer identity and empty entries are the code's choices, checked by the
+    #     correspondence and reported here only as soft clauses)
     if set(g["I"]) != set(E):
         bad.append("transpose:starts")
+    want, got, ordered_ok, ptr_ok = {}, {}, True, True
     for st, ends in E.items():
-        want = {}
         for e in sorted(ends, reverse=True):
             for sid, (ty, endp, cr, corr) in ends[e].items():
-                want.setdefault(sid, []).append((str(endp), str(ty), cr))
-        got = g["I"].get(st, {})
-        # the property speaks of the edge *set*: compare as multisets (the order of a list - descending end
-        # position - is the code's choice and is checked by the correspondence, not here)
-        if {k: sorted(v) for k, v in got.items()} != {k: sorted(v) for k, v in want.items()}:
-            bad.append("transpose:not-exact")
+                want.setdefault((st, sid), []).append((str(endp), str(ty), cr))
+    for st, idx in g["I"].items():
+        for sid, lst in idx.items():
+            if lst:
+                if any(t[2].endswith("!") for t in lst):
+                    ptr_ok = False
+                got[(st, sid)] = [(t[0], t[1], t[2].rstrip("!")) for t in lst]
+    if {k: sorted(v) for k, v in got.items()} != {k: sorted(v) for k, v in want.items()}:
+        bad.append("transpose:not-exact")
+    elif got != want:
+        bad.append("transpose:order")
+    if not ptr_ok:
+        bad.append("transpose:pointer-identity")
     return bad, flags
 
 
@@ -402,7 +424,7 @@ def run_chunk(args):
     specs, exe, rmodel, workdir, tier = args
     os.makedirs(workdir, exist_ok=True)
     res = dict(graphs=0, mism=[], bad=[], classes={}, nontrivial=0, prisms=[], samples=[], errors=[],
-               by_kind={}, inputs=0)
+               by_kind={}, inputs=0, soft={})
     # pass 1: build prisms only, to learn the keys (random inputs are built from the stored spellings)
     rc, out, err = vlib.sh2([exe, workdir], stdin="".join(sp["line"] + "\n" for sp in specs), timeout=600,
                             env={"ASAN_OPTIONS": "detect_leaks=0", "UBSAN_OPTIONS": "print_stacktrace=1"})
@@ -467,7 +489,10 @@ def run_chunk(args):
         if not in_domain:
             res["out_of_domain"] = res.get("out_of_domain", 0) + 1
             continue
-        bad, flags = oracle(M, sp["delims"], comp, strict, s, g)
+        allbad, flags = oracle(M, sp["delims"], comp, strict, s, g)
+        bad = [b for b in allbad if b not in SOFT]
+        for b in set(allbad) & SOFT:
+            res["soft"][b] = res["soft"].get(b, 0) + 1
         if bad:
             if len(res["bad"]) < 50:
                 res["bad"].append(dict(case, clauses=sorted(set(bad)), impl=il))
@@ -538,6 +563,10 @@ def run(ctx):
             classes[k] = classes.get(k, 0) + v
         for k, v in r["by_kind"].items():
             by_kind[k] = by_kind.get(k, 0) + v
+    soft = {}
+    for r in results:
+        for k, v in r["soft"].items():
+            soft[k] = soft.get(k, 0) + v
     prisms = [p for r in results for p in r["prisms"]]
     samples = [s for r in results for s in r["samples"]][:6]
     ctx.coverage.update({
@@ -557,6 +586,7 @@ def run(ctx):
         "class_counts": classes, "graphs_by_prism_kind_in_domain": by_kind,
         "prisms": prisms, "inputs_total": sum(r["inputs"] for r in results),
         "correspondence_mismatches": len(mism), "oracle_failures_on_impl": len(bad),
+        "soft_clause_failures_on_impl": soft,
         "graphs_out_of_domain_model_agreement_only": sum(r.get("out_of_domain", 0) for r in results),
         "mutation_drills": MUTATION_DRILLS,
     })
@@ -583,34 +613,38 @@ def run(ctx):
     if mism and not bad:
         ctx.violation("correspondence:c08", "extracted model and real code disagree on a SyllableGraph "
                       "(the property's reference holds on all implementation graphs)",
-                      dict(real[0], mismatches=len(mism)), found_input=False)
+                      dict(real[0], mismatches=len(mism), code_choice_clauses_failing=soft), found_input=False)
     elif mism:
         ctx.notes.append("correspondence mismatches: %d (first: %s)" % (len(mism), real[0] if real else None))
 
 
 MUTATION_DRILLS = [
     # each: a hand-made, compiling change of src/rime/algo/syllabifier.cc in the scratch worktree /var/tmp/wt-c08,
-    # run as  VERIF_REPO=/var/tmp/wt-c08 VERIF_CACHE=/var/tmp/rime-verif-c08 bin/check C08 quick  (2026-09-29)
+    # run as  VERIF_REPO=/var/tmp/wt-c08 VERIF_CACHE=/var/tmp/rime-verif-c08 bin/check C08 quick  (2026-09-29, final
+    # oracle).  "failing input" = the property's reference fails on the real code's graph for that input.
     {"id": "M1", "mutation": "pruning pass: `if (k->second.type > last_type)` -> `if (false)` (the last_type test on syllables dropped)",
-     "fired": "VIOLATION ... no-failing-input-found; correspondence:c08, 14826 graphs differ; the property's reference does not "
-              "object (the extra abbreviation syllables are denoted by their spellings)"},
+     "fired": "VIOLATION ... no-failing-input-found: correspondence:c08, 15302 graphs differ from the model; the property's "
+              "reference does not object (the extra abbreviation syllables are denoted by their spellings)"},
     {"id": "M2", "mutation": "pruning pass: keep edges into non-good vertices (`if (good.find(j->first) == good.end())` -> `if (false)`)",
-     "fired": "VIOLATION with failing input: oracle:edge:into-unretained-vertex, oracle:vertex:not-on-a-path (first input 'lln')"},
+     "fired": "VIOLATION with failing input 'lln': oracle:vertex:not-on-a-path; 8848 graphs differ from the model"},
     {"id": "M3", "mutation": "delimiter skipping off by one: `while (end_pos < input.length() && ...)` -> `end_pos + 1 < input.length()`",
-     "fired": "VIOLATION with failing input \"h'\": oracle:edge:trailing-delimiters-not-maximal, "
-              "oracle:interpreted_length:not-longest-tilable-prefix, oracle:normal-tiling:edge-missing",
+     "fired": "VIOLATION with failing input \"h'\": oracle:interpreted_length:not-longest-tilable-prefix, "
+              "oracle:normal-tiling:edge-missing; 14656 graphs differ",
      "note": "test/syllabifier_test.cc has no delimiter in any input"},
     {"id": "M4", "mutation": "Transpose iterates the ends in ascending instead of descending order",
-     "fired": "VIOLATION ... no-failing-input-found; correspondence:c08, 9756 graphs differ (the index is still the transpose as a set, "
-              "so the property's reference does not object; the model fixes the order)",
+     "fired": "VIOLATION ... no-failing-input-found: correspondence:c08, 14842 graphs differ (the index is still the transpose as a "
+              "set, so the property's reference does not object; soft clause transpose:order)",
      "note": "test/syllabifier_test.cc never reads `indices`"},
     {"id": "M4b", "mutation": "Transpose records only the first end of each syllable (`if (index[syll_id].empty()) push_back`)",
-     "fired": "VIOLATION with failing input: oracle:transpose:not-exact (first input 'rw')"},
+     "fired": "VIOLATION with failing input 'gg': oracle:transpose:not-exact"},
     {"id": "M5", "mutation": "merge rule: `it->second.type = (std::max)(it->second.type, props.type)` instead of min",
-     "fired": "VIOLATION with failing input 'ttt' on a hand-made Script with a syllable listed twice: oracle:edge:syllable-missing, "
-              "oracle:normal-tiling:edge-missing; 2078 graphs differ from the model"},
+     "fired": "VIOLATION with failing inputs 'ff', 'hg' on hand-made Scripts listing a syllable twice: oracle:edge:syllable-missing, "
+              "oracle:normal-tiling:edge-missing, oracle:vertex:not-on-a-path; 3444 graphs differ from the model"},
     {"id": "M6", "mutation": "pruning pass: vertex test `graph->vertices[i] > last_type ||` dropped",
-     "fired": "VIOLATION with failing input 'hss': oracle:vertex:not-on-a-path; 640 graphs differ from the model"},
+     "fired": "VIOLATION with failing input 'nwk': oracle:vertex:not-on-a-path; 152 graphs differ from the model"},
+    {"id": "M7", "mutation": "completion accepts abbreviations: `if (props.type < kAbbreviation)` -> `<=`",
+     "fired": "VIOLATION ... no-failing-input-found: correspondence:c08, 579 graphs differ (the property does not restrict which "
+              "spellings complete; soft clauses edge:completion-type-policy / completion-not-exact)"},
 ]
 
 MANIFEST = {
